@@ -148,13 +148,28 @@ def ob_compare(lo, lv, lw):
     return h
 
 
+class Pt:
+    """an end point / a member: a distinct OBJECT per value in both modes (like a Version; two equal Python ints may be one object, which would hide an
+    `is` written for `==`), ordered by its integer"""
+    __slots__ = ('v',)
+    def __init__(self, v): self.v = v
+    def __lt__(self, o): return self.v < o.v
+    def __le__(self, o): return self.v <= o.v
+    def __gt__(self, o): return self.v > o.v
+    def __ge__(self, o): return self.v >= o.v
+    def __eq__(self, o): return isinstance(o, Pt) and self.v == o.v
+    def __ne__(self, o): return not isinstance(o, Pt) or self.v != o.v
+    __hash__ = None
+    def __repr__(self): return 'Pt(%r)' % (self.v,)
+
+
 def mk_range(tag):
     """an arbitrary Range over integers"""
     kind = choose(4, tag + 'kind')      # 0: empty flag, 1: min only, 2: max only, 3: both  (None/None covered by emptiness flag False)
     if kind == 0:
         return U.Range(is_empty=decide(sym_bool(tag + 'empty')))
-    mn = sym_int(tag + 'min') if kind in (1, 3) else None
-    mx = sym_int(tag + 'max') if kind in (2, 3) else None
+    mn = Pt(sym_int(tag + 'min')) if kind in (1, 3) else None
+    mx = Pt(sym_int(tag + 'max')) if kind in (2, 3) else None
     return U.Range(min=mn, min_eq=sym_bool(tag + 'mineq'), max=mx, max_eq=sym_bool(tag + 'maxeq'))
 
 
@@ -172,7 +187,7 @@ def member(x, r):
 def ob_range():
     def h():
         a = mk_range('a'); b = mk_range('b')
-        x = sym_int('x')
+        x = Pt(sym_int('x'))
         ma, mb = member(x, a), member(x, b)
         check(eq(x in a, decide(bt_any(ma))), '__contains__ means membership')
         r = a.intersect(b)
